@@ -289,7 +289,8 @@ theorem evalP_benign (p : PExpr) (h : simple p = true) : Benign (evalP p) := by
     · rw [hq]; exact ⟨hok, allInt_nil⟩
     · rw [hq]; exact benign_unm
   | name s =>
-    simp only [evalP]
+    have hs : globalTypes.contains (s.map Char.toNat) = false := by simpa [simple] using h
+    simp only [evalP, hs]
     split
     · exact benign_upe
     · exact vName_good s
